@@ -24,6 +24,7 @@ type batchLint struct {
 	Labels   int
 	Gotos    int
 	Calls    int
+	OpenLoops int // loop heads without an end label: extent unknown
 }
 
 func labelOf(line string) (string, bool) {
@@ -135,7 +136,10 @@ func lintBatch(script string) (res batchLint) {
 				regions = append(regions, region{"loop", n, st, end})
 				res.Loops++
 			} else {
-				prob("loop head :%s without a later end label :_e%s", k, n)
+				// a loop that nothing leaves by a jump needs no end label: not a defect in itself (a jump to a
+				// missing label is reported as such); the extent of this loop is unknown, so the confinement
+				// rule cannot be applied to the script
+				res.OpenLoops++
 			}
 		}
 	}
@@ -633,6 +637,10 @@ func checkC16(c *Check) {
 		lint := lintBatch(trW.Script)
 		c.Eval(id, lint.Labels > 0)
 		jumpRuleApplies := true
+		if lint.OpenLoops > 0 {
+			jumpRuleApplies = false
+			c.Inconclusive("a loop head has no end label: loop extents unknown, jump confinement not judged")
+		}
 		if pg.prog != nil {
 			loops, ifs := countConstructs(pg.prog)
 			if loops != lint.Loops || ifs != lint.Ifs {
